@@ -199,6 +199,12 @@ class Toks(Enum):
 
 class QE(Enum):
     A = QName("urn:x-y", "a")
+    B = QName("urn:b", "beta")
+
+
+class Blob(Enum):
+    X = b"\x01\xff"
+    Y = b"xsdata"
 
 
 def run(ctx):
@@ -346,6 +352,33 @@ def extras(ctx):
                 continue
             if back is not member or padded is not member:
                 ctx.violation(f"enum {member!r} -> {s!r} -> {back!r} / padded {padded!r}", {"enum": repr(member)})
+    # enums whose members need the keyword arguments of the member converter: a QName member written with a PREFIX
+    # (resolved through the prefix map), a bytes member in base16 / base64
+    for member in QE:
+        uri, local = member.value.text[1:].split("}")
+        for ns_map in ({"p": uri}, {"p": uri, None: "urn:other"}, {None: uri}):
+            ctx.case(("enum-qname", member.name, str(ns_map)))
+            try:
+                s = converter.serialize(member, ns_map=dict(ns_map))
+                back = converter.deserialize(s, [QE], ns_map=dict(ns_map))
+                lex = ("p:" if "p" in ns_map else "") + local
+                direct = converter.deserialize(lex, [QE], ns_map=dict(ns_map))
+            except Exception as ex:  # noqa: BLE001
+                ctx.violation(f"enum over QName {member!r} with prefixes {ns_map}: {type(ex).__name__}: {ex}", {"enum": repr(member), "ns_map": str(ns_map)})
+                continue
+            if back is not member or direct is not member:
+                ctx.violation(f"enum over QName {member!r} with prefixes {ns_map}: {s!r} -> {back!r}, {lex!r} -> {direct!r}", {"enum": repr(member)})
+    for member in Blob:
+        for fmt, lex in (("base16", member.value.hex().upper()), ("base16", member.value.hex()), ("base64", __import__("base64").b64encode(member.value).decode())):
+            ctx.case(("enum-bytes", member.name, fmt, lex))
+            try:
+                back = converter.deserialize(lex, [Blob], format=fmt)
+                again = converter.deserialize(converter.serialize(member, format=fmt), [Blob], format=fmt)
+            except Exception as ex:  # noqa: BLE001
+                ctx.violation(f"enum over bytes {member!r} ({fmt}) literal {lex!r}: {type(ex).__name__}: {ex}", {"enum": repr(member)})
+                continue
+            if back is not member or again is not member:
+                ctx.violation(f"enum over bytes {member!r} ({fmt}): {lex!r} -> {back!r}", {"enum": repr(member)})
     for v in ["", "t", " a b ", "<&>", "\U0001F600", "é"]:
         if converter.deserialize(converter.serialize(v), [str]) != v:
             ctx.violation(f"str {v!r} does not survive", {"value": v})
